@@ -96,5 +96,6 @@ func main() {
 		trieStreams(c, h)
 		chainStreams(c, h)
 		netStreams(c, h)
+		h.Report()
 	})
 }
